@@ -314,7 +314,7 @@ PROPS["C18"]["files"] = list(dict.fromkeys(PROPS["C18"]["files"] + ["proofs/Symb
 for _p in ("C06", "C20"):
     PROPS[_p]["prop_files"] = ["props/%s.v" % _p, "props/%si.v" % _p]
     PROPS[_p]["prop_file"] = "props/%s.v" % _p
-    PROPS[_p]["files"] = list(dict.fromkeys(PROPS[_p]["files"] + ["proofs/FlagProofs.v", "props/%s.v" % _p]))
+    PROPS[_p]["files"] = list(dict.fromkeys(PROPS[_p]["files"] + ["proofs/SafetyProofs.v", "proofs/FlagProofs.v", "proofs/FlagProofs2.v", "props/%s.v" % _p]))
 
 for _p in ("C07", "C17"):
     PROPS[_p]["files"] = list(dict.fromkeys(PROPS[_p]["files"] + ["proofs/EngineProofs.v", "proofs/BisimProofs.v", "props/%s.v" % _p]))
@@ -330,3 +330,10 @@ for _p in ("C05", "C08", "C20"):
 PROPS["C18"]["prop_files"] = ["props/C18.v", "props/C18i.v", "props/C18res.v"]
 PROPS["C18"]["files"] = list(dict.fromkeys(PROPS["C18"]["files"] + ["proofs/DbProofs.v", "proofs/ResProofs.v", "props/C18res.v"]))
 PROPS["C18"]["model_files"] = list(dict.fromkeys(PROPS["C18"]["model_files"] + ["model/DbKey.v", "model/DbModel.v", "model/ResModel.v"]))
+
+# C15 also covers the VM's own decoding path (vm/runner.go): Vm.Run on malformed code from prepared states
+PROPS["C15"]["drivers"] = PROPS["C15"]["drivers"] + [{"name": "vmrun", "n_quick": 80, "n_thorough": 800}]
+PROPS["C15"]["model_files"] = list(dict.fromkeys(PROPS["C15"]["model_files"] + ENGINE_MODEL + ["corr/VmRunCorr.v"]))
+PROPS["C15"]["rule"] = PROPS["C15"]["rule"] + (" || vmrun: the real Vm.Run on generated programs of 1-5 instructions, every 1st-3rd truncation and three single-byte corruptions of each, "
+    "from independently drawn states (subsets of READIN/INMATCH/WAIT/LOADFAIL/TERMINATE/client flags, input absent/empty/selector, stack depth 0-3) with a resource answering every code fetch "
+    "with empty code; observed: nil/error/panic, remaining code, flags, stack; corpus: truncated INCMP after a matched 'previous' on the first page")
